@@ -79,7 +79,11 @@ ASSUMPTIONS = [
 ]
 EXHAUSTIVE = {"quick": False, "thorough": False}
 
-VISUALS = ("none", "face", "vertex", "texture")
+VISUALS = ("none", "face", "vertex", "texture",
+           # states of the colour visual reached by a history rather than by assignment:
+           "face:default_edited",    # no colours assigned; the default face colours read and edited IN PLACE
+           "vertex:default_edited",  # the same for the default vertex colours
+           "vertex:face_read")       # vertex colours assigned, the derived face colours read (cached) before the operation
 NORMALS = ("cold", "computed", "assigned")
 IMG = 32  # texture is IMG x IMG pixels, one per uv group
 
@@ -189,10 +193,21 @@ class Tagged:
         m.face_attributes["tag2"] = np.column_stack([np.arange(self.nf), -np.arange(self.nf)])
         m.vertex_attributes["id"] = np.arange(self.nv)
         m.vertex_attributes["pos"] = self.V.copy()
+        visual, _, vstate = visual.partition(":")
         if visual == "face":
-            m.visual.face_colors = self.fcol.copy()
+            if vstate == "default_edited" and self.nf:
+                fc = m.visual.face_colors
+                fc[:] = self.fcol  # edited in place, not read again before the operation
+            else:
+                m.visual.face_colors = self.fcol.copy()
         elif visual == "vertex":
-            m.visual.vertex_colors = self.vcol.copy()
+            if vstate == "default_edited" and self.nv:
+                vc = m.visual.vertex_colors
+                vc[:] = self.vcol
+            else:
+                m.visual.vertex_colors = self.vcol.copy()
+            if vstate == "face_read":
+                _ = m.visual.face_colors
         elif visual == "texture":
             m.visual = TextureVisuals(uv=self.uv.copy(), image=_image(image_variant))
         if normals == "computed":
@@ -406,11 +421,14 @@ class Ctx:
     """One observed execution: where to report."""
 
     def __init__(self, run, T, visual, normals, op, params):
-        self.run, self.T, self.visual, self.normals, self.op, self.params = run, T, visual, normals, op, params
+        self.run, self.T, self.normals, self.op, self.params = run, T, normals, op, params
+        # "face:default_edited" -> kind "face" reached through the state "default_edited"
+        self.visual_full = visual
+        self.visual, _, self.vstate = visual.partition(":")
         self.failed = []
 
     def case_dict(self, extra=None):
-        d = {"mesh": self.T.to_case(), "visual": self.visual, "normals": self.normals,
+        d = {"mesh": self.T.to_case(), "visual": self.visual_full, "normals": self.normals,
              "op": self.op, "params": self.params}
         if extra:
             d["observed"] = extra
@@ -419,7 +437,7 @@ class Ctx:
     def fail(self, sym, what, detail=None, opt=""):
         key = "op=%s%s sym=%s" % (self.op, (" " + opt) if opt else "", sym)
         if sym in VISUAL_SYMS or sym.startswith("visual_kind_"):
-            key += " visual=%s" % self.visual
+            key += " visual=%s" % self.visual_full
         self.failed.append(sym)
         self.run.violation(key, what, self.case_dict(detail))
 
@@ -675,6 +693,15 @@ def check_visual_inplace(cx, m, fid, vid, opt=""):
             k = int(np.nonzero(got != vid)[0][0])
             cx.fail("vertex_colour_misaligned", "a vertex colour now sits on a different vertex than it was attached to",
                     {"new_vertex": k, "colour_id": int(got[k]), "attribute_id": int(vid[k])}, opt)
+        if cx.vstate == "face_read" and len(fid) and "vertex_colour_misaligned" not in cx.failed and "visual_length" not in cx.failed:
+            # the face colours derived from the vertex colours were read before the operation:
+            # asked again they must describe the faces there are now
+            try:
+                fc = np.asarray(m.visual.face_colors)
+                if fc.shape != (len(fid), 4):
+                    cx.fail("visual_length", "derived face colours no longer have one row per face", {"shape": list(fc.shape)}, opt)
+            except BaseException as e:  # noqa
+                cx.fail("visual_length", "derived face colours cannot be read any more: %s" % type(e).__name__, {"error": repr(e)[:200]}, opt)
     elif cx.visual == "texture":
         uv = m.visual.uv
         if uv is None or np.shape(uv) != (len(vid), 2):
@@ -759,16 +786,27 @@ def _mask_from_params(p):
     m = np.asarray(p["mask"])
     if p.get("mask_kind") == "bool":
         return m.astype(bool)
-    return m.astype(np.int64).reshape(-1)
+    dt = p.get("mask_dtype", "int64")
+    if dt == "list":
+        return [int(x) for x in m.reshape(-1)]
+    return m.astype(dt).reshape(-1)
+
+
+def _mask_opt(p):
+    """mask class for keys: bool / int / uint / list"""
+    if p.get("mask_kind") == "bool":
+        return "bool"
+    dt = p.get("mask_dtype", "int64")
+    return "list" if dt == "list" else ("uint" if dt.startswith("u") else "int")
 
 
 def _finish(cx, nontrivial, *digest):
-    cx.run.case("%s:%s:%s" % (cx.op, cx.visual, cx.normals), cx.op, repr(sorted(cx.params.items())), cx.visual,
+    cx.run.case("%s:%s:%s" % (cx.op, cx.visual_full, cx.normals), cx.op, repr(sorted(cx.params.items())), cx.visual_full,
                 cx.normals, *cx.T.digest(), nontrivial=bool(nontrivial))
     cx.run.count("op_" + cx.op)
     for f in cx.T.feats:
         cx.run.state("op_x_feature", (cx.op, f))
-    cx.run.state("op_x_visual_x_normals", (cx.op, cx.visual, cx.normals))
+    cx.run.state("op_x_visual_x_normals", (cx.op, cx.visual_full, cx.normals))
 
 
 def _guard(cx, fn, opt="", refusable=False):
@@ -783,7 +821,7 @@ def _guard(cx, fn, opt="", refusable=False):
 
 
 def _prepare(cx):
-    m = cx.T.build(cx.visual, cx.normals)
+    m = cx.T.build(cx.visual_full, cx.normals)
     cx.vn_before = None
     if cx.normals != "cold" and cx.T.nf and cx.T.nv:
         try:
@@ -853,7 +891,7 @@ def op_update_faces(cx):
     T = cx.T
     exp = np.arange(T.nf)[mask]
     if ok:
-        check_inplace(cx, m, exp_src_face=exp, exp_src_vertex=np.arange(T.nv), opt="mask=%s" % p["mask_kind"])
+        check_inplace(cx, m, exp_src_face=exp, exp_src_vertex=np.arange(T.nv), opt="mask=%s" % _mask_opt(p))
     _finish(cx, not np.array_equal(exp, np.arange(T.nf)))
 
 
@@ -865,7 +903,7 @@ def op_update_vertices(cx):
     keep = np.zeros(T.nv, dtype=bool)
     keep[mask] = True
     drops_ref = bool((T.referenced & ~keep).any()) and len(mask) > 0
-    opt = "mask=%s input=%s" % (p["mask_kind"], "drops_referenced_vertices" if drops_ref else "keeps_referenced_vertices")
+    opt = "mask=%s input=%s" % (_mask_opt(p), "drops_referenced_vertices" if drops_ref else "keeps_referenced_vertices")
     ok, _ = _guard(cx, lambda: m.update_vertices(mask), opt)
     if ok:
         exp_v = np.arange(T.nv)[mask]
@@ -1171,7 +1209,7 @@ def op_concatenate(cx):
     p = cx.params
     tagged = [cx.T] + [Tagged.from_case(c) for c in p["others"]]
     kinds = p.get("normal_modes") or [cx.normals] * len(tagged)
-    meshes = [t.build(cx.visual, k, image_variant=i % 3 if p.get("mixed_images") else 0) for i, (t, k) in enumerate(zip(tagged, kinds))]
+    meshes = [t.build(cx.visual_full, k, image_variant=i % 3 if p.get("mixed_images") else 0) for i, (t, k) in enumerate(zip(tagged, kinds))]
     route = p.get("route", "concatenate")
     opt = "route=%s" % route
     if route == "add":
@@ -1194,7 +1232,7 @@ def op_concatenate(cx):
     virt = Tagged(V, F)
     virt.vcol = np.vstack([t.vcol for t in tagged])
     virt.fcol = np.vstack([t.fcol for t in tagged])
-    sub = Ctx(cx.run, virt, cx.visual, cx.normals, cx.op, cx.params)
+    sub = Ctx(cx.run, virt, cx.visual_full, cx.normals, cx.op, cx.params)
     sub.case_dict = cx.case_dict
     Vn = np.asarray(res.vertices)
     if Vn.shape != V.shape or not _same(Vn, V).all():
@@ -1246,7 +1284,7 @@ def op_subdivide(cx):
     """Attribute carry through Trimesh.subdivide: old vertices keep index, position and rows."""
     p = cx.params
     T = cx.T
-    m = cx.T.build(cx.visual, "cold")
+    m = cx.T.build(cx.visual_full, "cold")
     # documented attribute shape is (n, d)
     m.vertex_attributes = {"id2": np.column_stack([np.arange(T.nv), np.arange(T.nv)]).astype(np.float64),
                            "pos": T.V.copy()}
@@ -1309,10 +1347,22 @@ def execute(run, T, visual, normals, op, params):
 # workload
 
 
-def _mask_params(tag, mask):
+_INT_DTYPES = ("int64", "int64", "int32", "uint32", "uint64", "uint8", "list")
+
+
+def _mask_params(tag, mask, rng=None):
     mask = np.asarray(mask)
     kind = "bool" if mask.dtype == bool else "int"
-    return {"mask_tag": tag, "mask_kind": kind, "mask": mask.astype(int).tolist()}
+    p = {"mask_tag": tag, "mask_kind": kind, "mask": mask.astype(int).tolist()}
+    if kind == "int" and rng is not None:
+        # index masks come in every integer dtype (and as plain lists)
+        dt = _INT_DTYPES[int(rng.integers(len(_INT_DTYPES)))]
+        if dt == "uint8" and len(mask) and int(mask.max()) > 255:
+            dt = "uint32"
+        if dt == "list" and len(mask) == 0:
+            dt = "int64"  # an empty list has no integer type: not an integer mask
+        p["mask_dtype"] = dt
+    return p
 
 
 def _sequences(rng, nf):
@@ -1354,15 +1404,15 @@ def ops_for(run, rng, T, full):
     yield "remove_unreferenced_vertices", {}
     yield "remove_infinite_values", {}
     for tag, mk in masks(rng, nf):
-        yield "update_faces", _mask_params(tag, mk)
+        yield "update_faces", _mask_params(tag, mk, rng)
     for tag, mk in masks(rng, nv):
-        yield "update_vertices", _mask_params(tag, mk)
+        yield "update_vertices", _mask_params(tag, mk, rng)
     if nv:
         # masks that never drop a referenced vertex
         yield "update_vertices", _mask_params("referenced_bool", T.referenced | (rng.random(nv) < 0.3))
         cover = np.concatenate([np.arange(nv), rng.integers(0, nv, size=int(rng.integers(1, nv + 1)))])
-        yield "update_vertices", _mask_params("cover_repeat_int", rng.permutation(cover))
-        yield "update_vertices", _mask_params("referenced_int", rng.permutation(np.nonzero(T.referenced)[0]))
+        yield "update_vertices", _mask_params("cover_repeat_int", rng.permutation(cover), rng)
+        yield "update_vertices", _mask_params("referenced_int", rng.permutation(np.nonzero(T.referenced)[0]), rng)
     yield "unique_faces", {}
     yield "nondegenerate_faces", {"height": None}
     if full:
